@@ -285,9 +285,13 @@ SPECIAL_SLOTS = [
     ("t = f'{{ {} }}'", 'value.values[0].value', 'zz', 'FSTR'), ("t = f'{{ aa:{{ {} }} }}'", 'value.values[0].format_spec.values[0].value', 'zz', 'FSTR'),
     ('t = [bb if({})else cc]', 'value.elts[0].test', 'zz', 'GLUE'), ('t = [ii for ii in({})if ii]', 'value.generators[0].iter', 'zz', 'GLUE'), ('t = ({})if bb else cc', 'value.body', 'zz', 'GLUE'),
     ('t = [not({})and dd]', 'value.elts[0].values[0].operand', 'zz', 'GLUE'), ('t = {{kk: vv for kk in({})if kk}}', 'value.generators[0].iter', 'zz', 'GLUE'), ('tt = [aa if bb else({})for ii in jj]', 'value.elt.orelse', 'zz', 'GLUE'),
+    # a generator expression that is the only argument shares the call's parentheses: they are not its own
+    ('ff({})', 'value.args[0]', 'ii for ii in xx', 'SOLO'), ('rr = gg(kk)({})(yy)', 'value.func.args[0]', 'ii for ii in xx', 'SOLO'),
+    ('tt = [ee for ee in ff({})]', 'value.generators[0].iter.args[0]', 'ii for ii in xx', 'SOLO'), ('ff({}, bb)', 'value.args[0]', '(ii for ii in xx)', 'SOLO'), ('ff(({}))', 'value.args[0]', 'ii for ii in xx', 'SOLO'),
     ("t = f'{{ {}!r:>9 }}'", 'value.values[0].value', 'zz', 'FSTR'), ("t = f'{{ [aa, {}] }}'", 'value.values[0].value.elts[1]', 'zz', 'FSTR'), ("t = f'{{ aa or {} }}'", 'value.values[0].value.values[1]', 'zz', 'FSTR'),
 ]
 SPECIAL_REPL = {
+    'SOLO': ['(aa + bb)', '(aa or bb)', 'aa', '(aa)', '(aa,\n bb)', '(jj for jj in yy)', 'lambda: zz', '(lambda: zz)', '*ss', '(aa if bb else cc)', 'aa if bb else cc', '(aa +\n bb)', '(aa := bb)', '"s"\n "t"'],
     'STAR': ['*xx or yy', '*xx\n.yy', '*xx', '*(xx | yy)', '*(xx |\n yy)', '*(xx or yy)', '*(xx |  # c\n yy)', '*xx.yy', '*[xx,\n yy]', '*(xx\n .yy)', '*(xx if yy else zz)', '*(xx,\n yy)', 'xx', '(xx |\n yy)'],
     'GLUE': ['(pp +\n qq)', 'gg(pp,\n qq).rr', '(pp + \\\n qq)', 'pp', '(pp)', '[pp,\n qq]', '(pp\n .qq)', 'pp +\\\n qq', '(pp if qq else\n rr)', '"s"\\\n "t"'],
     'FSTR': ['(aa if bb else lambda: xx)', '(cc, lambda: xx)', '(aa if bb else\n lambda: xx)', '(cc,\n lambda: xx)', 'lambda: xx', 'aa if bb else lambda: xx', 'cc, lambda: xx', '(lambda: xx)', 'ff(lambda: xx)', '[lambda: xx]', 'aa if bb else (lambda: xx)', 'xx := 1', '(xx := 1)', 'not lambda: xx' if False else 'xx if yy else zz',
